@@ -182,6 +182,10 @@ func (f *FProtocol) ReadResponseHeader(ctx FContext) error {
 func (f *FProtocol) writeHeader(headers map[string]string) error {
 	buff := writeMarshaler.marshalHeaders(headers)
 	if n, err := f.Transport().Write(buff); err != nil {
+		if IsErrTooLarge(err) {
+			// Keep the REQUEST_TOO_LARGE / RESPONSE_TOO_LARGE type.
+			return err
+		}
 		return thrift.NewTTransportException(TRANSPORT_EXCEPTION_UNKNOWN,
 			fmt.Sprintf("frugal: error writing protocol headers in writeHeader: %s", err))
 	} else if n != len(buff) {
